@@ -39,7 +39,7 @@ def run(tier, replay):
             "traces_validated_against_impl": n["End"], "transport_write_events": n["Write"],
             "process_aborts_observed": n["abort"], "panics_observed": n["panic"],
             "samples": C.samples(trace, 3),
-            "rule": "Gen_Conn over Mutation.tla: 20 seed requests (9 methods, 4 versions, target classes, Range/Origin/Content-Length/Content-Type, the three form "
+            "rule": "[plus 161 registered request header / value pairs x 3 targets x GET/HEAD unmutated, feedback requests derived from the server's own answers, and a 400-range request of a 6 MiB file in the wire histories] Gen_Conn over Mutation.tla: 20 seed requests (9 methods, 4 versions, target classes, Range/Origin/Content-Length/Content-Type, the three form "
                     "endpoints) x 3 handlers (built-in, error-returning, multi-range); every single mutation (replace by role alphabet, delete, duplicate, truncate at every token)%s; "
                     "8 seeds x transport scripts (chunk sizes, short first write at 45 offsets, zero accept, write/flush/read faults); each case is one distinct document; every "
                     "call on the transport is validated as a step of Conn, the End by C04 clauses (no crash, answered, error status where required)" % ("" if tier == "quick" else "; all pairs on 3 seeds"),
